@@ -45,6 +45,9 @@ def app_callbacks(rp, tm, extra, seen):
             seen.append([i, int(task.uid.split('.')[1]), state])
             if not hit(state) or x.get('spent'): return
             x['spent'] = True
+            if x['kind'] == 'raiser':
+                # a fault in one application callback: it is logged, the callbacks behind it are still told
+                raise KeyError('application callback failed')
             if x['kind'] == 'oneshot':
                 tm.unregister_callback(cb=keep[x['slot']], uid=uid)
             else:
@@ -72,6 +75,10 @@ def run_history(rp, tasks, batches, extra=None, pilot_dies=None, waits=None):
                 'cb_data': None}}
     seen = []
     keep = app_callbacks(rp, tm, copy.deepcopy(extra), seen)
+    # a second recording callback, registered after the application's callbacks (it is called behind them)
+    late = []
+    if extra is not None:
+        tm.register_callback(lambda task, state: late.append([int(task.uid.split('.')[1]), state]))
     errs = []
     for bi, b in enumerate(batches):
         # `waits`: before batch bi the application waits (briefly) for a task to reach a state - Task.wait with a
@@ -98,6 +105,8 @@ def run_history(rp, tasks, batches, extra=None, pilot_dies=None, waits=None):
             errs.append(exc_name(e))
         after = [tm._tasks['task.%06d' % t['uid']].state for t in tasks]
         return {'tasks': out_tasks, 'cbs': cbs, 'after_pilot_end': after}, errs
+    if extra is not None and late != cbs:
+        return {'tasks': out_tasks, 'cbs': cbs, 'callback_registered_last_saw': late}, errs
     return {'tasks': out_tasks, 'cbs': cbs}, errs
 
 
@@ -258,7 +267,7 @@ def run(ctx):
         if res['cbs'] and ctx.rng.random() < 0.4:
             extra = []
             for _ in range(ctx.rng.randint(1, 3)):
-                extra.append({'kind': ctx.rng.choice(['oneshot', 'oneshot', 'adder']),
+                extra.append({'kind': ctx.rng.choice(['oneshot', 'oneshot', 'adder', 'raiser']),
                               'uid': ctx.rng.choice([None, None, ctx.rng.choice(tasks)['uid']]),
                               'on': ctx.rng.choice(['final', 'final', res['cbs'][0][1], ctx.rng.choice(res['cbs'])[1]])})
             res3, errs3 = run_history(rp, tasks, batches, extra)
